@@ -6,39 +6,39 @@ CHECKS = [
          text="Decides, for every sampling function of union/cut/intersection domains and boundaries, that the facts established about each "
               "returned point set propositionally imply the class's own membership formula on every path (abstract interpretation, helpers under "
               "call-site bindings); filtering samplers return only rows accepted on those rows; Translate/Rotate push-forward inverts the "
-              "pull-back; the dependent product samples A at the B points it returns. Geometry of primitives, tolerances and termination are NOT decided. Also: slot-wise return of one-point-per-parameter-row proposals, positive proposal counts, and the rules shared from C02/C05/C10/C13/C15/C17 on which sampling correctness rests. Shared in addition: membership tests leave the proposals untouched and read their own columns (C05), evaluated domains carry every constructor argument over (C17). Wave 9: no 0/0 for any requested count, quota loops end only on their quota, membership closeness tests name exactly the polygon's own sides, moved boundaries keep the pivot.",
+              "pull-back; the dependent product samples A at the B points it returns. Geometry of primitives, tolerances and termination are NOT decided. Also: slot-wise return of one-point-per-parameter-row proposals, positive proposal counts, and the rules shared from C02/C05/C10/C13/C15/C17 on which sampling correctness rests. Shared in addition: membership tests leave the proposals untouched and read their own columns (C05), evaluated domains carry every constructor argument over (C17). Wave 9: no 0/0 for any requested count, quota loops end only on their quota, membership closeness tests name exactly the polygon's own sides, moved boundaries keep the pivot. Wave 10: the polygon perimeter walk evaluated on rings of 3 and 4 sides (every arc-length position placed, closing side included); fused forms (addcmul / lerp) of the interval formula.",
          note=_T + "Operand samplers/membership tests are correct (induction over the expression).",
          technique=_SA + "abstract interpretation over fact formulas + truth tables; operator-word term algebra for motions; abstract interpretation of sampling helpers with local closures and symbolic row counts"),
     dict(property_id="C02",
          text="Decides the row-layout discipline of the sampler layer: parameter-major replication primitive, admissible layout pairs at every join, "
               "per-row loops (params[i] only, loop order, cut to n, guards re-initialised), sampler algebra, definite assignment on all paths, and "
-              "row-count agreement of the domain operations by finite instantiation over (n, k). Run-time shapes depending on user functions/data are NOT decided. Also: constructor data never rewritten from call parameters, upper bound of topped-up counts, interval boundary grid for n = 1..8 by partial evaluation. Also: the grid helpers of the domain operations return n rows for every outcome of every membership test (evaluated on row-count models, n = 2..4), the data sampler's n is its first-axis length, quota loops end only on their quota.",
+              "row-count agreement of the domain operations by finite instantiation over (n, k). Run-time shapes depending on user functions/data are NOT decided. Also: constructor data never rewritten from call parameters, upper bound of topped-up counts, interval boundary grid for n = 1..8 by partial evaluation. Also: the grid helpers of the domain operations return n rows for every outcome of every membership test (evaluated on row-count models, n = 2..4), the data sampler's n is its first-axis length, quota loops end only on their quota. Wave 10: no non-static sampler stores a draw (C15); points copied for parameter rows as whole blocks in moved domains.",
          note=_T + "Count equalities by finite instantiation on a fixed grid (reported as such).",
          technique=_SA + "layout classification at join sites, loop-carried-state rule, definite assignment, row-count evaluation of expanded expressions; partial evaluation of small list/mask code; evaluation of helper functions on row-count value models over all membership outcomes"),
     dict(property_id="C04",
          text="Decides the dataflow shape of every sampler-driven Condition.forward: one draw per sampler, model/data/residual share one tracked draw, "
               "residual mapping complete and name-keyed, reduce(error(residual)), documented (error, reduce) per class, SquaredError axis, data-condition "
-              "norms with the root last, sibling initialisation, and - shared from C03/C08/C13 - the input re-ordering of models, the by-name argument mapping of residual/data functions and the structure of the differential operators. Loss values and user callables are NOT decided. Also: the data loader permutes inputs and targets alike (C16), DeepONet conditions decide from all residual parameters whether the input functions are supplied. Periodic sides sampled on their own interval end; data-condition targets paired with the model output by name; branch-cache protocol and operator axis rules shared from C09 / C03.",
+              "norms with the root last, sibling initialisation, and - shared from C03/C08/C13 - the input re-ordering of models, the by-name argument mapping of residual/data functions and the structure of the differential operators. Loss values and user callables are NOT decided. Also: the data loader permutes inputs and targets alike (C16), DeepONet conditions decide from all residual parameters whether the input functions are supplied. Periodic sides sampled on their own interval end; data-condition targets paired with the model output by name; branch-cache protocol and operator axis rules shared from C09 / C03. Wave 10: positional base-constructor arguments arrive in the parameter they are named after (G-POS); periodic sides evaluate their own data (C14).",
          note=_T + "User residual/data functions are opaque.",
          technique=_SA + "path enumeration with evaluation identities (same-origin provenance), structural matching of expanded expressions"),
     dict(property_id="C05",
          text="Decides exactly the Boolean structure of _contains of union/cut/intersection/product and their boundaries (truth table vs set algebra under "
               "closedness/genericity), the pull-back structure of Translate/Rotate, row-wise evaluation of shape functions, the Cramer identity of the "
               "barycentric solve, purity of membership tests, the name-based column selection and that the absolute slack of boundary side tests on computed "
-              "barycentric coordinates (isclose atol + rtol*|c|, widened unit range) is not below float32 resolution. Primitive predicates and the sufficiency of tolerances are NOT decided. Also: sides of polygon boundaries are segments (no assignment true with all range tests false), orientation invariance of the interior tests (exchange of the spanning directions permutes the tested rational functions), linear radius bound of ball-shaped primitives, chunk loops cover every row. Also: answers are combined with torch.logical_* while a float-mask domain exists; polygon / mesh domains read their own columns.",
+              "barycentric coordinates (isclose atol + rtol*|c|, widened unit range) is not below float32 resolution. Primitive predicates and the sufficiency of tolerances are NOT decided. Also: sides of polygon boundaries are segments (no assignment true with all range tests false), orientation invariance of the interior tests (exchange of the spanning directions permutes the tested rational functions), linear radius bound of ball-shaped primitives, chunk loops cover every row. Also: answers are combined with torch.logical_* while a float-mask domain exists; polygon / mesh domains read their own columns. Wave 10: scale of tolerances (relative part against size-bearing quantities, lower bound of computed tolerances, the user's mesh tolerance).",
          note=_T,
          technique=_SA + "Boolean formula extraction + truth tables, free-module term algebra, rational-function identities, constant propagation of tolerance arguments through helper call sites; truth-table satisfiability with range atoms forced false, rational-function set comparison under a substitution"),
     dict(property_id="C07",
          text="Static decision of necessary structural conditions of the Solver step: loss polynomial == sum weight_i*loss_i, whole-range loop, step "
               "index, counter, ModuleList wrapping, optimizer over self.parameters(), registration of every condition-held Parameter, "
-              "gradient-reversal sign, effect-free validation. Trajectory equality is NOT decided. Also: every path of training_step returns the summed loss. Also: optimizer / scheduler settings stored unfiltered.",
+              "gradient-reversal sign, effect-free validation. Trajectory equality is NOT decided. Also: every path of training_step returns the summed loss. Also: optimizer / scheduler settings stored unfiltered. Wave 10: the solver replaces no step of the optimisation loop; gradients are freed, not zeroed.",
          note=_T + "Lightning optimises the returned loss with the returned optimizer; nn.Module registration semantics.",
          technique=_SA + "path enumeration + def-use expansion, polynomial normal form, class-hierarchy queries"),
     dict(property_id="C08",
          text="Decides that every point-wise model routes its input through the name-based re-ordering before any use (taint/must-pass-through), the "
               "sanitiser itself, Parallel/Sequential composition structure, input-derived state, output labelling, the selection and join primitives "
               "(requested order of Space[[names]], column pairing of Points.joined) and the absence of size-dependent axis removal. Row "
-              "independence of arbitrary tensor code is NOT decided (re-arranging ops are reported UNDECIDED). Also: inputs whose variable names differ from the model's are rejected on every path. Also: Parallel's spaces by partial evaluation on overlapping parts; forward never writes into tensors that may alias the caller's.",
+              "independence of arbitrary tensor code is NOT decided (re-arranging ops are reported UNDECIDED). Also: inputs whose variable names differ from the model's are rejected on every path. Also: Parallel's spaces by partial evaluation on overlapping parts; forward never writes into tensors that may alias the caller's. Wave 10: rank-bound matrix products on input-derived tensors; the sanitiser evaluated on rank-2 and rank-3 raw tensors.",
          note=_T + "Sub-models handed to compositions are torchphysics Models.",
          technique=_SA + "taint analysis on expanded path expressions, class-hierarchy attribute typing, axis-role interpretation, partial evaluation of the sanitiser on a table model over all orders of three variables"),
     dict(property_id="C12",
@@ -50,79 +50,79 @@ CHECKS = [
     dict(property_id="C13",
          text="Decides the calling convention of UserFunction/DomainUserFunction: keyword-only invocation through one mapping, mapping = given ∪ default "
               "selections over self.args, dominating required-name check, tail alignment of defaults, copy-on-partial-evaluation, no aliasing of "
-              "mutable defaults. What the user's function computes is NOT decided. Also, by partial evaluation: defaults alignment for six signatures read from self.fun itself, necessary_args for five settings, order-free batch split; user containers are only read (C14). Also: call purity and unfiltered forwarding for every subclass of UserFunction.",
+              "mutable defaults. What the user's function computes is NOT decided. Also, by partial evaluation: defaults alignment for six signatures read from self.fun itself, necessary_args for five settings, order-free batch split; user containers are only read (C14). Also: call purity and unfiltered forwarding for every subclass of UserFunction. Wave 10: parameters are identified by their declared names whatever they are called; Points keep no derived state (C12).",
          note=_T + "Positional-or-keyword signatures (the property's quantifier).",
          technique=_SA + "entry families of argument mappings (iterable, key, membership condition, value) with merge order, dominance on paths, outcome typestate of partial evaluation, alias/effect rules"),
     dict(property_id="C15",
          text="Decides the StaticSampler counter automaton in closed form (uses per drawn set == interval for every interval), cache/return discipline, "
               "make_static, and for adaptive samplers the mask polarity/threshold polynomial, in-place same-mask row replacement and first-call adoption. "
-              "Randomness of the retained set is NOT decided. Also: next() serves the cached set without counting a use; every make_static override forwards the interval. Also: the cache is tested by identity with None (an empty draw is a draw).",
+              "Randomness of the retained set is NOT decided. Also: next() serves the cached set without counting a use; every make_static override forwards the interval. Also: the cache is tested by identity with None (an empty draw is a draw). Wave 10: one stored set only - created_points is None, a fresh draw or itself moved to a device.",
          note=_T,
          technique=_SA + "automaton extraction from path conditions, polynomial normal form of the threshold, IEEE-exactness of the threshold at equal losses"),
     dict(property_id="C16",
          text="Decides the index algebra of the data sets: one permutation value on all coupled tensors/axes, identical windows on coupled tensors, "
               "independent digits of the joint batch index with matching __len__, and exactly-once aggregation over the loader. Batches for concrete sizes "
-              "beyond the index algebra are NOT decided. Also: coverage of the wrap-around windows over one pass for batch sizes below and above the data-set size by finite instantiation of the window bounds. Also: the batch error is computed out of place (C04). Also: transparent loaders (data handed on as given, shape-only layout choice, no cached batches).",
+              "beyond the index algebra are NOT decided. Also: coverage of the wrap-around windows over one pass for batch sizes below and above the data-set size by finite instantiation of the window bounds. Also: the batch error is computed out of place (C04). Also: transparent loaders (data handed on as given, shape-only layout choice, no cached batches). Wave 10: constructor arguments of data conditions and loaders reach the base class (G-ARG).",
          note=_T + "torch DataLoader visits indices 0..len-1 once.",
          technique=_SA + "evaluation identities for permutations, window descriptors, digit classification, helper inlining with conditional variants; numeric instantiation of extracted window-bound expressions"),
     dict(property_id="C03",
          text="Decides the autograd call discipline (sum-then-grad, create_graph), the affine component/offset pairing of div / laplacian / jac (incl. precomputed "
               "offset lists), the index tables of rot / sym_grad / convective / normal_derivative / matrix_div, zero short-circuits and accumulator dtype/device. "
-              "Numerical agreement with analytic derivatives is NOT decided. Also: control flow free of tensor values, no memoisation, graph test dominating every second derivative. Also: operators that accept any batch rank never reach one that addresses axis 1 from the front; custom autograd Functions save only (views of) their own arguments. Backward passes contain no power of a rectified value with a variable exponent.",
+              "Numerical agreement with analytic derivatives is NOT decided. Also: control flow free of tensor values, no memoisation, graph test dominating every second derivative. Also: operators that accept any batch rank never reach one that addresses axis 1 from the front; custom autograd Functions save only (views of) their own arguments. Backward passes contain no power of a rectified value with a variable exponent. Wave 10: the graph test precedes the derivative of the same iteration; the join of per-variable gradients is row-wise for flat, 2-D and higher-rank batches (evaluated); the custom autograd Function of the DeepONet layers (C09).",
          note=_T + "Rows of the model output depend only on the same input rows.",
          technique=_SA + "recurrences of loop-carried symbols (offset' = offset + dim, acc' = acc + term), affine index forms in polynomial normal form, last-axis vs axis-1 selection, symbolic list evaluation; guard dominance on paths"),
     dict(property_id="C06",
          text="Decides operand selection and sign of normals on Boolean boundaries, unit length and perpendicularity of edge normals as polynomial identities "
               "(in-place column updates modelled), radial normals, sign-definiteness of n·(opposite vertex - edge start) under vertex orientation, and the "
-              "direction constants of interval end points, and that the side lookup of polygon normals uses a slack above float32 resolution. Outwardness as geometry, NaNs in general and meshes are NOT decided. Also: an explicit orientation factor is the sign of the determinant of the spanning directions. Also: exact linear solve for triangles of every size (no clamped determinant), side table of the membership.",
+              "direction constants of interval end points, and that the side lookup of polygon normals uses a slack above float32 resolution. Outwardness as geometry, NaNs in general and meshes are NOT decided. Also: an explicit orientation factor is the sign of the determinant of the spanning directions. Also: exact linear solve for triangles of every size (no clamped determinant), side table of the membership. Wave 10: tolerances of the operand selection (C05); normal() keeps all variables of its points.",
          note=_T + "Points passed to normal() lie on the boundary; operands' own normals are outward (induction).",
          technique=_SA + "symbolic vector evaluation in rational normal form, sibling agreement of edge tests between membership and normal, uniform-mask short cuts"),
     dict(property_id="C09",
          text="Decides the contraction axis of the DeepONet output and the parameter/point meshgrid by an axis-role interpretation of reshape/transpose/matmul/"
               "repeat, the branch/trunk reshape agreement, autograd hygiene of the custom linear Function (only inputs saved, gradients from the required "
-              "operands) and the branch-cache protocol. Numerical equivalence is NOT decided. Also: forward passes neither change stored tensors in place nor flatten caller data with view; layer builders compared by partial evaluation. Also: collection batches by partial evaluation on unequal set sizes; per-function copies before tracking (C04).",
+              "operands) and the branch-cache protocol. Numerical equivalence is NOT decided. Also: forward passes neither change stored tensors in place nor flatten caller data with view; layer builders compared by partial evaluation. Also: collection batches by partial evaluation on unequal set sizes; per-function copies before tracking (C04). Wave 10: no part evaluates a network with gradient recording off.",
          note=_T,
          technique=_SA + "axis-role abstract interpretation, effect/ownership rules, sibling equivalence of the two layer builders by partial evaluation for 1-3 hidden layers"),
     dict(property_id="C10",
          text="Decides every primitive measure against the analytic table in rational normal form, non-negativity in a sign domain, the composition rules of "
               "union/cut/product/translate/rotate through public volume(), the user override, density-to-count conversion, absence of parameter-dependent "
-              "caching, and that flags survive partial evaluation. Documented estimates and third-party measures are NOT decided. Also: exclusive operand contributions of Boolean boundary density samplers, user-declared flags, truncated grid side counts, evaluated setter state.",
+              "caching, and that flags survive partial evaluation. Documented estimates and third-party measures are NOT decided. Also: exclusive operand contributions of Boolean boundary density samplers, user-declared flags, truncated grid side counts, evaluated setter state. Wave 10: delivered rows lie in the combination (facts, C01); box readers use the interleaved layout (C18); topped-up counts cut to n (C02).",
          note=_T + "radius > 0, upper >= lower.",
          technique=_SA + "symbolic tensor evaluation to rational functions, sign domain, taint of cached values; abstract fact sets of sampler contributions checked for joint satisfiability"),
     dict(property_id="C11",
          text="NARROW: decides only the construction named by the mechanism anchors (radial exponent 1/dim, azimuth, polar law, arclength walk with paired "
               "side lengths, triangle mirror, union mixture ratio, dependent-product acceptance, LHS strata and per-axis permutation, Normal proposals). "
-              "No distributional statement is decided; an algorithm replacement is UNDECIDED, never a violation. Also: signed / analytic measures used as mixture weights (C10), second grid request of cut / intersection == int(n^2 / kept) on row-count models. Also: lattice layout of meshgrid-built grids (coordinate axis last), lattice aspect ratio, per-round boundary requests in the ratio of the measures, random operand choice for one-point proposals (two recorded findings).",
+              "No distributional statement is decided; an algorithm replacement is UNDECIDED, never a violation. Also: signed / analytic measures used as mixture weights (C10), second grid request of cut / intersection == int(n^2 / kept) on row-count models. Also: lattice layout of meshgrid-built grids (coordinate axis last), lattice aspect ratio, per-round boundary requests in the ratio of the measures, random operand choice for one-point proposals (two recorded findings). Wave 10: the spiral lattice of the sphere is evenly spaced in height and on the unit sphere (polynomial identities); filtering samplers (C01).",
          note=_T + "torch.rand / randperm / Normal are the named laws.",
          technique=_SA + "rational normal forms with rational exponents, symbolic stratum formula, finite instantiation of the dependency classification, index provenance"),
     dict(property_id="C14",
          text="Decides by interprocedural effect analysis that no condition constructor writes into user containers or mutable defaults, that constructors call "
               "no state-changing method on user objects, that no module-level cache is written, that the periodic condition keeps left/right data apart and "
-              "does not pollute the static side samplers, and that forward writes only allow-listed state. Numerical repeatability is NOT decided. Also: constructing a domain expression never extends a sub-domain's variable set in place (C17). Also: no dtype cast of user-held Points; shuffles work on copies (C16).",
+              "does not pollute the static side samplers, and that forward writes only allow-listed state. Numerical repeatability is NOT decided. Also: constructing a domain expression never extends a sub-domain's variable set in place (C17). Also: no dtype cast of user-held Points; shuffles work on copies (C16). Wave 10: sampler builders (make_static, *, +, append) write nothing on their receiver; no stored draws on shared samplers (C15).",
          note=_T + "Unresolvable receivers (user objects) are assumed not to write their arguments.",
          technique=_SA + "parameter-write effect summaries closed over the resolved call graph, typestate of static samplers"),
     dict(property_id="C17",
          text="Decides the constructor round-trip of every Domain.__call__ (every constructor argument forwarded from its evaluated counterpart), survival of "
               "setter state, registration and fresh-set union of necessary variables (incl. order), purity of __call__ and copy-on-partial-evaluation. "
-              "Equality of sampled values is NOT decided. Also: copy-and-patch instead of re-construction is a violation; ** mappings are never pre-filtered by necessary names; boundaries of moved domains keep every argument.",
+              "Equality of sampled values is NOT decided. Also: copy-and-patch instead of re-construction is a violation; ** mappings are never pre-filtered by necessary names; boundaries of moved domains keep every argument. Wave 10: plot / animation samplers store their domains evaluated at the data for the other variables.",
          note=_T,
          technique=_SA + "constructor round-trip dataflow (operators resolved to their dunder constructors), alias/effect rules, partial evaluation of the point-data order"),
     dict(property_id="C18",
          text="Decides box layout and corner completeness of primitives as min/max reductions over symbolic coordinates, the lattice rules of "
               "union/intersection/cut/product/translate, all-corner images under linear maps, reduction over parameter rows, consumer layout "
-              "(NormalizationLayer affine map, LHS strata) and call-site/override signature compatibility. Tightness is NOT decided. Also: Boolean operations require identical operand spaces (order-sensitive), boxes never inherit a dtype from shape data, a user-set box is stored in space order. Also: one scale / shift per box axis in the normalisation layer, Point boxes by partial evaluation, Latin-hypercube box per row and permutation per axis.",
+              "(NormalizationLayer affine map, LHS strata) and call-site/override signature compatibility. Tightness is NOT decided. Also: Boolean operations require identical operand spaces (order-sensitive), boxes never inherit a dtype from shape data, a user-set box is stored in space order. Also: one scale / shift per box axis in the normalisation layer, Point boxes by partial evaluation, Latin-hypercube box per row and permutation per axis. Wave 10: every reader of a box uses the interleaved layout; delegating boxes hand the parameter rows on; geometry-object domains read the live mesh / polygon.",
          note=_T + "Third-party bounds are correct.",
          technique=_SA + "symbolic reductions over corner sets with sound bound arithmetic, partial evaluation of box-building code for 1-3 axes, affine index forms, call-site binding simulation"),
     dict(property_id="C19",
          text="NARROW: decides that learnable state is registered (complete state_dict), that the callbacks save the right object at the right hook under "
               "distinct names without buffering, that solver hooks leave optimizer/scheduler state alone and restore the step counter, and inventories "
-              "step-written plain state that no checkpoint captures. Everything Lightning does and bit-exact resume are NOT decided. Also: restore protocol passed through unchanged (no assign=True, nothing removed from checkpoints), no persistent buffer used as a cache, no parameter-data writes in hooks, callbacks restore the train/eval mode. Also: every checkpoint of the callback carries the configured content; saved weight mappings are not edited.",
+              "step-written plain state that no checkpoint captures. Everything Lightning does and bit-exact resume are NOT decided. Also: restore protocol passed through unchanged (no assign=True, nothing removed from checkpoints), no persistent buffer used as a cache, no parameter-data writes in hooks, callbacks restore the train/eval mode. Also: every checkpoint of the callback carries the configured content; saved weight mappings are not edited. Wave 10: checkpoint hooks remove nothing also through aliases of the mapping; strict loading stays on.",
          note=_T + "Lightning restores module/optimizer/scheduler state.",
          technique=_SA + "ownership and effect inventory, hook-order rules (state restored between on_fit_start and on_train_start), state layout fixed by constructors; override / hook inventory over the class table"),
     dict(property_id="C20",
          text="Decides that a Fourier layer never writes to (an alias/view of) its input, that between the paired rfftn/irfftn (same axes, norm, s = input shape) "
               "the spectrum is only padded/truncated and multiplied by the kernel (no re-indexing, no constant mode offsets), and the point-wise structure "
-              "of FNO. Equivariance and resolution consistency as numbers are NOT decided. Also: the spectrum is multiplied by the kernel itself (no re-indexing).",
+              "of FNO. Equivariance and resolution consistency as numbers are NOT decided. Also: the spectrum is multiplied by the kernel itself (no re-indexing). Wave 10: the common input sanitiser addresses the last axis for rank-3 batches (C08).",
          note=_T,
          technique=_SA + "may-alias effect analysis, operation whitelist on a def-use slice, partial evaluation of the padding vector and axis list for 1-3 spatial axes"),
 ]
